@@ -187,7 +187,7 @@ pub fn run(ctx: &Ctx) -> Report {
         run_case(&mut rep, w["seed"].as_u64().unwrap_or(ctx.seed), w["case"].as_u64().unwrap_or(0));
         return rep;
     }
-    let n = ctx.budget(1000, 100_000);
+    let n = ctx.budget(10_000, 300_000);
     let seed = ctx.seed;
     let mut rep = parallel(ctx.threads, |shard, nsh| {
         let mut rep = Report::new();
